@@ -835,6 +835,7 @@ impl Runner {
                 items.push((k.to_vec(), v.value(), String::new()));
             }
         }
+        let paths = crate::wrap::stream_paths(f, &aut, matches!(&spec, AutSpec::Always), &setters, with_state);
         // oracle
         if let Some(e) = self.expect.clone() {
             let mut lo = (0u8, vec![]);
@@ -880,6 +881,35 @@ impl Runner {
                         self.check(&ws == st, || format!("C04 state for key {} is {} want {}", hex(k), st, ws));
                     }
                 }
+            }
+        }
+        // the same query through the Map / Set wrappers (src/map.rs, src/set.rs)
+        {
+            let prop = match &spec {
+                AutSpec::Always => "C03",
+                AutSpec::Lev(_, _) => "C17",
+                _ => "C04",
+            };
+            let l = line_of(t);
+            let mut bad: Vec<String> = vec![];
+            for (label, has_values, got) in paths {
+                let same = got.len() == items.len()
+                    && got.iter().zip(items.iter()).all(|(a, b)| a.0 == b.0 && a.2 == b.2 && (!has_values || a.1 == b.1));
+                if !same {
+                    bad.push(format!(
+                        "{} {} through {} yields {} but raw::Fst yields {}",
+                        prop,
+                        l,
+                        label,
+                        show_kvs(&got.iter().map(|(k, v, _)| (k.clone(), *v)).collect::<Vec<_>>()),
+                        show_kvs(&items.iter().map(|(k, v, _)| (k.clone(), *v)).collect::<Vec<_>>())
+                    ));
+                } else {
+                    self.checks += 1;
+                }
+            }
+            for b in bad {
+                self.fail(b);
             }
         }
         let strs: Vec<String> = items
